@@ -12,6 +12,7 @@ import BctVerif.Lemmas.MeasuresCoreX
 import BctVerif.Lemmas.MeasuresComp
 import BctVerif.Lemmas.MeasuresPartition
 import BctVerif.Lemmas.MeasuresWalks
+import BctVerif.Lemmas.MeasuresLocalEff
 /-!
 # C04 — graph measures are equivariant under renumbering of the nodes
 
@@ -21,15 +22,14 @@ import BctVerif.Lemmas.MeasuresWalks
 driver of this framework runs against the real bct function* (the model of the slice that owns the routine); the two
 exceptions transport a specification rather than an executed definition: `isDist_equivariant` (the predicate `IsDist`) and
 `eigenvector_equivariant` (the eigen-equation, written with the executed `Walks.mulVecQ`).  Betweenness models take
-natural-number connection lengths (`AMat Nat n`); `pagerank_equivariant` assumes that both runs of the model return
-(no totality theorem for `Walks.pagerank` exists).
+natural-number connection lengths (`AMat Nat n`).
 
 * §1 `Model/Measures.lean` (this slice): `strengths_und_sign`, `density_und/dir`, `matching_ind`, `edge_nei_overlap_bu/bd`,
   `gtom`, `flow_coef_bd`, `rich_club_bu/bd`, `assortativity_bin/wei`;
 * §2 `Model/Cluster.lean` (C09/C10): degrees, strengths, `clustering_coef_bu/bd/wu/wd`, `clustering_coef_wu_sign` (3 types),
   `transitivity_bu/bd/wu/wd` — rational weights, the matrix of cube roots renumbered with the weights;
 * §3 `Model/Dist.lean` (C03): `distance_wei_floyd`, `distance_wei`, `distance_bin`, `breadthdist`, `reachdist`, `charpath`,
-  `efficiency_bin`, `efficiency_wei` — from "model = minimum walk length" (`IsDist`, unique) transported along σ;
+  `efficiency_bin`, `efficiency_wei`; `Model/LocalEff.lean` (C10): `efficiency_bin/efficiency_wei(local=True)` — from "model = minimum walk length" (`IsDist`, unique) transported along σ;
 * §4 `Model/Between.lean` (C08): `betweenness_wei`, `edge_betweenness_wei`, `edge_betweenness_bin`, `betweenness_bin` — from
   "model = sum of shortest-path fractions" (`bcSpec`, `ebcSpec`) and equivariance of the definition;
 * §5 `Model/Core.lean` (C15): `kcore_bu/bd`, `score_wu`, `kcoreness_centrality_bu/bd`;
@@ -48,7 +48,7 @@ Partial: `gtom_equivariant_partial` (`nr_steps ≤ 2`; `gtom_three_steps_not_equ
 `nr_steps = 3` is not equivariant — defect D17, open known finding) and `breadthdist_equivariant_offdiag_partial`
 (ordered pairs of distinct nodes; the diagonal holds the code's "length of a cycle through the source" quirk, which the
 C03 specification leaves open — searched on the real code).
-Not modelled by any slice, search on the real code only: `efficiency_bin/wei` local variants, `rich_club_wu/wd`,
+Not modelled by any slice, search on the real code only: `efficiency_wei(local='original')`, `rich_club_wu/wd`,
 `matching_ind_und`, the LAPACK calls themselves (`eig`, `eigh`, `solve`).
 -/
 namespace Bct.C04
@@ -209,6 +209,14 @@ theorem efficiency_bin_invariant (A : AMat Rat n) : Dist.efficiencyBin (permA σ
 theorem efficiency_wei_invariant (W : AMat Rat n) (hW : C03.NonNeg W) : Dist.efficiencyWei (permA σ W) = Dist.efficiencyWei W :=
   efficiencyWei_perm σ W hW
 
+/-- `efficiency_bin(G, local=True)` (model `Model/LocalEff.lean`; neighbourhood sub-graph distances from `Dist.distBin`) -/
+theorem efficiency_bin_local_equivariant (G : AMat Rat n) :
+    LocalEff.localEffBin (permA σ G) = permVec σ (LocalEff.localEffBin G) := localEffBin_perm σ G
+
+/-- `efficiency_wei(W, local=True)` with `R = cuberoot(W)` (non-negative), both renumbered -/
+theorem efficiency_wei_local_equivariant (W R : AMat Rat n) (hR : C03.NonNeg R) :
+    LocalEff.localEffWei (permA σ W) (permA σ R) = permVec σ (LocalEff.localEffWei W R) := localEffWei_perm σ W R hR
+
 /-! ## §4 betweenness (`Model/Between.lean`) -/
 
 /-- the definitions (sums of fractions of minimum-length walks) are renumbered with the graph -/
@@ -279,13 +287,15 @@ theorem module_degree_zscore_equivariant (W : AMat Rat n) (c : Vector Int n) (fl
 
 /-! ## §8 spectral measures (`Model/Walks.lean`); LAPACK itself is not modelled -/
 
-/-- `pagerank_centrality`: the model solves the linear system exactly (Gaussian elimination, certified).  When it returns for
-both numberings (weights ≥ 0, no empty column, `0 ≤ d < 1`, prior renumbered with the graph) the vectors correspond —
-through uniqueness of the solution (`C18.pagerank_unique`), not through the elimination order. -/
-theorem pagerank_equivariant (A : Walks.QMat n) (d : Rat) (f : Option (Vector Int n)) (o o' : Walks.PrOut n)
-    (h : Walks.pagerank A d f = .ok o) (h' : Walks.pagerank (permA σ A) d (f.map (permVec σ)) = .ok o')
-    (hA : ∀ i j, 0 ≤ A.get i j) (hdeg : ∀ j, ∑ i, A.get i j ≠ 0) (hd0 : 0 ≤ d) (hd1 : d < 1) :
-    o'.r = permVec σ o.r := pagerank_perm σ A d f o o' h h' hA hdeg hd0 hd1
+/-- `pagerank_centrality`: the model solves the linear system exactly (Gaussian elimination, certified).  On the routine's
+domain — weights ≥ 0, `0 ≤ d < 1`, no prior or a non-negative prior with non-zero sum, renumbered with the graph — the model
+returns for both numberings (`C18.pagerank_total`) and the PageRank vectors correspond: what it returns is the unique solution
+of the system (`C18.pagerank_model_is_solution`), whatever the elimination order; empty columns are allowed. -/
+theorem pagerank_equivariant (A : Walks.QMat n) (d : Rat) (f : Option (Vector Int n)) (hn : 0 < n)
+    (hA : ∀ i j, 0 ≤ A.get i j) (hd0 : 0 ≤ d) (hd1 : d < 1)
+    (hf : ∀ g, f = some g → (∀ i : Fin n, 0 ≤ g[i]) ∧ ∑ i : Fin n, (g[i] : ℚ) ≠ 0) :
+    ∃ o o', Walks.pagerank A d f = .ok o ∧ Walks.pagerank (permA σ A) d (f.map (permVec σ)) = .ok o' ∧ o'.r = permVec σ o.r :=
+  pagerank_perm_total σ A d f hn hA hd0 hd1 hf
 
 /-- the series `Σ_{m<T} (A^m)_{ii}/m!` that the driver evaluates for `subgraph_centrality` (C18 proves it equal to the
 spectral formula for every orthonormal eigenbasis, so no basis of a degenerate eigenspace can matter) -/
@@ -371,7 +381,8 @@ example : Partition.relabel (permVec s4 c4) ≠ Partition.relabel c4 ∧ Partiti
 -- §8
 example : okB (Walks.pagerank Q4 (1 / 2) none) (fun o => okB (Walks.pagerank (permA s4 Q4) (1 / 2) none) fun o' =>
     decide (o'.r ≠ o.r)) = true := by decide +kernel
-example : (∀ i j, 0 ≤ Q4.get i j) ∧ (∀ j, ∑ i, Q4.get i j ≠ 0) := by decide +kernel
+example : (∀ i j, 0 ≤ Q4.get i j) ∧ (0 : Rat) ≤ 1 / 2 ∧ (1 / 2 : Rat) < 1 := by decide +kernel
+example : LocalEff.localEffBin (permA s4 Q4) ≠ LocalEff.localEffBin Q4 ∧ C03.NonNeg Q4 := by decide +kernel
 example : Walks.expDiag (permA s4 U4) 3 ≠ Walks.expDiag U4 3 := by decide +kernel
 /-- K₂ has the eigenvector (1, 1) for the eigenvalue 1 -/
 def K2 : AMat Int 2 := AMat.ofFn fun i j => if i = j then 0 else 1
